@@ -510,7 +510,7 @@ class ReceiverSuite(Suite):
         return (me, ALL_PEERS, ops)
 
     def generate(self, rng, tier):
-        n, max_ops = (1200, 40) if tier == 'quick' else (25000, 200)
+        n, max_ops = (1200, 40) if tier == 'quick' else (20000, 120)
         return [self.gen_case(rng, max_ops, hostile=(k % 4 == 3)) for k in range(n)]
 
     # ---------------- execution on the real classes
@@ -767,6 +767,11 @@ W_STOPPING = ([(1, []), (2, [(7, 'RUNNING', True)]), (3, [])],
     ('LocalChange', 2, 7, 'STOPPING', True), ('Deliver', 2, 1), ('Deliver', 2, 3)] + _admit(3, 2))
 
 
+# Replication proofs: lost_stopping_residue (F11 seen from C12)
+W_RESIDUE = (W_TRUTHS, _admit_self(1) + _admit_self(2) + _admit(2, 1) + _admit(1, 2) + [
+    ('LocalChange', 2, 7, 'STOPPING', True), ('Deliver', 2, 1), ('Fail', 1, 2), ('InvalidateAt', 1, False)])
+
+
 class ClusterSuite(Suite):
     name = 'cluster'
     prelude = 'From Sup Require Import Replication.\nOpen Scope Z_scope.'
@@ -776,7 +781,7 @@ class ClusterSuite(Suite):
     shard_size = 100
 
     def corpus(self):
-        return [W_RECEIVER, W_SENDER, W_LOCAL, W_CLEAN, W_STOPPING]
+        return [W_RECEIVER, W_SENDER, W_LOCAL, W_CLEAN, W_STOPPING, W_RESIDUE]
 
     # ---------------- generation: a scheduler with a rough picture of the protocol state (bias only)
     def gen_case(self, rng, max_actions, mode):
@@ -880,7 +885,7 @@ class ClusterSuite(Suite):
         return (truths, acts)
 
     def generate(self, rng, tier):
-        n, max_actions = (500, 60) if tier == 'quick' else (8000, 200)
+        n, max_actions = (500, 60) if tier == 'quick' else (4000, 150)
         out = []
         for k in range(n):
             mode = 'careful' if k % 3 else 'wild'
